@@ -22,6 +22,14 @@ CLAIMS = {
         technique='kind-directed abstract evaluation per comment kind at every dispatch loop; whole-path evaluation of converters for typed-accessor bypasses; string-transformer inventory of the comment converter',
         text='Partial: decides that every comment child reaches an emitting branch on every path, that converters which never walk their children are comment-free or guarded, that comment text is only de-indented, and the line-comment discipline. Found and repaired F4.',
         design_ref='DESIGN.md §2 C06'),
+    'C07': dict(
+        technique='abstract evaluation of the conversion entries with the attribute query left unknown (both edges explored), who-may-call table for bypasses of the checked entries, leaf evaluation of the verbatim emitter',
+        text='Partial: every conversion entry that can receive a marked expression, code body or equation body consults the mark and emits the node verbatim on that edge. Whether the attribute pass marks the right node is not decided.',
+        design_ref='DESIGN.md §2 C07'),
+    'C18': dict(
+        technique='abstract evaluation of every Option<document> function (no conversion before None), duplicate-conversion detection on every evaluated path, size-change analysis of the recursive call graph',
+        text='Partial: rules out the exponential try-then-fall-back re-conversion pattern and non-descending recursion structurally; the renderer\'s cost and constant factors are not decided.',
+        design_ref='DESIGN.md §2 C18'),
     'C08': dict(
         technique='abstract evaluation of the two stages of the markup converter per child kind and on the <Text, Parbreak> sequence; dominance/provenance of the break-suppressed context; leaf-converter evaluation',
         text='Partial: decides that no soft break or removal can happen between prose pieces, paragraph breaks keep their line-feed count, prose leaves are emitted byte for byte, mixed lines are converted break-suppressed.',
